@@ -3,7 +3,8 @@
    from src/cobald/daemon/core/{main,config}.py and config/mapping.py on every run: it holds the structure
    fact that the loading payload keeps the configuration referenced while it sleeps. *)
 From Coq Require Import List Arith Bool.
-From Cobald Require Import model.RT model.Daemon proofs.RTBase proofs.RTProofs proofs.DaemonProofs gen.Gen_daemon.
+From Cobald Require Import model.RT model.Daemon model.DaemonCtor proofs.RTBase proofs.RTProofs proofs.DaemonProofs
+  proofs.DaemonCtorProofs gen.Gen_daemon.
 Import ListNotations.
 
 (* the current source keeps the configuration alive: `with load(path): await sleep(...)`, load() yields
@@ -61,6 +62,32 @@ Proof.
   - exact (dstep_step _ _ _ _ E).
 Qed.
 Print Assumptions C13_graceful_stop.
+
+(* Constructors take time (model/DaemonCtor.v refines the daemon model: every history it admits is a daemon
+   history, so everything above holds of it). *)
+Theorem C13_ctor_layer_refines_daemon :
+  forall holds tr c, crun holds cinit tr = Some c -> drun holds dinit tr = Some (c_d c).
+Proof. intros holds tr c H. exact (crun_drun holds tr cinit c H). Qed.
+Print Assumptions C13_ctor_layer_refines_daemon.
+
+(* "every service is started only once it has been constructed" — the part that holds: a coroutine service
+   made by a coroutine payload is never started on its creator's loop while the constructor runs (the asyncio
+   services of a configuration, constructed inside the asyncio loop) *)
+Theorem C13_started_only_when_constructed_partial :
+  forall holds tr1 c1 sv f tid loop other ok c2 q,
+    crun holds cinit tr1 = Some c1 -> cstep holds c1 (Start sv f tid loop other ok) = Some c2 ->
+    c_ctor c1 sv = true -> d_creator (c_d c1) sv = Some q ->
+    coroutine f = true -> coroutine (p_flav (pay (d_rt (c_d c1)) q)) = true ->
+    p_loop (pay (d_rt (c_d c1)) q) <> loop /\ c_half c2 sv = Some (loop, p_loop (pay (d_rt (c_d c1)) q)).
+Proof. exact C13_same_loop_start_waits_for_constructor. Qed.
+Print Assumptions C13_started_only_when_constructed_partial.
+
+(* ... the full statement is false of the faithful model and of the code (known finding
+   C13-service-started-before-constructed): a trio / thread service can be started half-built *)
+Theorem C13_started_only_when_constructed_refuted :
+  exists tr c sv, crun true cinit tr = Some c /\ c_half c sv <> None /\ p_st (pay (d_rt (c_d c)) sv) = PRun.
+Proof. exact C13_started_only_when_constructed_refuted. Qed.
+Print Assumptions C13_started_only_when_constructed_refuted.
 
 Definition ex_daemon : list event :=
   [AdoptCall Outside 0 0 Aio; AdoptEnd 0 true; AcceptCall 0; Start 0 Aio 1 1 0 true;
